@@ -54,7 +54,7 @@ Wrap(w, x) ==
     [] w = "A" -> <<Node("TEMPLATE_ARG", <<>>, <<<<S(<<"1">>)>>, x>>, <<>>, <<>>)>>
 RECURSIVE Inl(_, _)
 Inl(d, cx) ==
-  LET base == Leaf \cup (IF cx \cap {"L", "E", "R"} = {} THEN LeafBr ELSE {})
+  LET base == Leaf \cup (IF cx \cap {"L", "E", "R", "nobr"} = {} THEN LeafBr ELSE {})
   IN IF d = 0 THEN base
      ELSE base \cup UNION { { Wrap(w, x) : x \in Inl(d - 1, cx \cup {w}) } : w \in Wrappers(cx) }
 
@@ -108,7 +108,7 @@ D2 == { <<"D2", ow[1], Outer(ow[1], Blk(ow[2], x))>> :
           ow \in {v \in OuterW \X BlockW : InnerOK(v[1], v[2])}, x \in Inl(Depth - 2, {}) }
 BlkR(w, x) == IF w = "rule" THEN Rule ELSE Blk(w, x)
 D3 == { <<"D3", w1, JoinKids(BlkR(w1, X1), BlkR(w2, <<S(<<"b1">>)>>))>> : w1 \in BlockW \cup {"rule"}, w2 \in BlockW \cup {"rule"} }
-D4 == { <<"D4", "para", J3(x, <<S(<<"SP">>)>>, JoinKids(y, <<NL>>))>> : x \in Inl(1, {}), y \in Inl(1, {}) }
+D4 == { <<"D4", "para", J3(x, <<S(<<"SP">>)>>, JoinKids(y, <<NL>>))>> : x \in Inl(1, {}), y \in Inl(1, {"nobr"}) }   \* (a [[ and a later ]] in one paragraph would be a link)
 AllDocs(z) == D1 \cup D2 \cup D3 \cup D4
 
 (* ---------------- compact hand-written rendering ---------------- *)
